@@ -1,7 +1,199 @@
-/- Line-protocol engine for C18 — stub, to be filled in. -/
-import CV.Proto
+/- Line-protocol engine for C18 (resource store). See go/overlay/internal/verifharness/c18. -/
+import CV.Res
+import CV.ResLin
 namespace CV.Engine.C18
-open CV
-def step (_ : Unit) (_toks : List String) : Unit × String := ((), "bad-op")
-def engine : Engine := { State := Unit, init := (), step := step }
+open CV CV.Res
+
+/-! ### codecs -/
+
+def parseID (tok : String) : Option RID :=
+  match tok.splitOn ";" with
+  | [g, gv, k, p, n, nm, u] => do
+      let g ← decB g; let gv ← decB gv; let k ← decB k; let p ← decB p
+      let n ← decB n; let nm ← decB nm; let u ← decB u
+      pure ⟨⟨g, gv, k⟩, ⟨p, n⟩, nm, u⟩
+  | _ => none
+
+def encID (i : RID) : String :=
+  ";".intercalate [encB i.typ.group, encB i.typ.gv, encB i.typ.kind, encB i.ten.part, encB i.ten.ns, encB i.name, encB i.uid]
+
+def parseRes (tok : String) : Option Res :=
+  match tok.splitOn "|" with
+  | [i, o, v, d] => do
+      let id ← parseID i
+      let owner ← if o == "-" then some none else (parseID o).map some
+      let v ← decS v
+      let d ← d.toNat?
+      pure ⟨id, owner, v, d⟩
+  | _ => none
+
+def encRes (r : Res) : String :=
+  "|".intercalate [encID r.id, (match r.owner with | none => "-" | some o => encID o), encS r.version, toString r.data]
+
+def encRows (rs : List Res) : String := encList (rs.map encRes)
+
+def parseRows (tok : String) : Option (List Res) := (decList tok).mapM parseRes
+
+def parseQuery (tok : String) : Option Query :=
+  match tok.splitOn ";" with
+  | [g, k, p, n, x] => do
+      let g ← decB g; let k ← decB k; let p ← decB p; let n ← decB n; let x ← decB x
+      pure ⟨g, k, p, n, x⟩
+  | _ => none
+
+def encWRes : WRes → String
+  | .ok => "ok" | .cas => "cas" | .wrongUid => "wronguid"
+
+def encRead : ReadRes → String
+  | .found r => "found " ++ encRes r
+  | .notFound => "notfound"
+  | .gvMismatch r => "gvmismatch " ++ encRes r
+
+def encWEv : WEv → String
+  | .upsert r => "upsert " ++ encRes r
+  | .delete r => "delete " ++ encRes r
+  | .eos => "eos"
+
+def encNext : NextRes → String
+  | .ev e => encWEv e
+  | .closed => "closed"
+  | .unsubErr => "unsub"
+  | .block => "none"
+
+def parseHandle (t : String) : Option Nat :=
+  if t.startsWith "h" then (t.drop 1).toString.toNat? else none
+
+/-! ### engine state: the sequential world + the history being collected -/
+
+structure St where
+  w    : World
+  hist : Lin.Hist
+deriving Inhabited
+
+instance : Inhabited World := ⟨World.init⟩
+
+def bad (s : St) : St × String := (s, "bad-op")
+
+def stepWorld (s : St) (toks : List String) : Option (St × String) :=
+  let w := s.w
+  let ret (w' : World) (out : String) : Option (St × String) := some ({ s with w := w' }, out)
+  match toks with
+  | ["new"] => ret World.init "ok"
+  | ["w", r] => do
+      let r ← parseRes r
+      let (w', res, stored) := w.backendWrite r
+      ret w' (match res with | .ok => "ok " ++ encRes stored | e => encWRes e)
+  | ["sw", r, v] => do
+      let r ← parseRes r; let v ← decS v
+      let (w', res) := w.storeWrite r v
+      ret w' (encWRes res)
+  | ["d", i, v] => do
+      let i ← parseID i; let v ← decS v
+      let (w', ok) := w.delete i v
+      ret w' (if ok then "ok" else "cas")
+  | ["rw", idx, r] => do
+      let idx ← idx.toNat?; let r ← parseRes r
+      let (w', res, stored) := w.raftWrite idx r
+      ret w' (match res with | .ok => "ok " ++ encRes stored | e => encWRes e)
+  | ["rd", i, v] => do
+      let i ← parseID i; let v ← decS v
+      let (w', ok) := w.raftDelete i v
+      ret w' (if ok then "ok" else "cas")
+  | ["r", i] => do
+      let i ← parseID i
+      ret w (encRead (w.db.read i))
+  | ["l", q] => do
+      let q ← parseQuery q
+      ret w (encRows (list w.db.rows q))
+  | ["lo", i] => do
+      let i ← parseID i
+      ret w (encRows (listByOwner w.db.rows i))
+  | ["wo", q] => do
+      let q ← parseQuery q
+      let (w', h) := w.watchOpen q
+      ret w' s!"h{h}"
+  | ["wn", h] => do
+      let h ← parseHandle h
+      let (w', r) := w.watchNext h
+      match r with
+      | none => ret w' "nohandle"
+      | some r => ret w' (encNext r)
+  | ["wc", h] => do
+      let h ← parseHandle h
+      let (w', ok) := w.watchClose h
+      ret w' (if ok then "ok" else "nohandle")
+  | ["pump"] =>
+      let (w', ok) := w.pump
+      ret w' (if ok then "ok" else "empty")
+  | ["snap"] => ret w (encRows w.db.rows)
+  | ["restore", rs] => do
+      let rs ← parseRows rs
+      ret (w.restore rs) "ok"
+  | _ => none
+
+/-! ### concurrent histories (see CV.ResLin) -/
+
+def parseWEv (kind : String) (r : String) : Option WEv :=
+  if kind == "u" then (parseRes r).map .upsert
+  else if kind == "x" then (parseRes r).map .delete
+  else none
+
+/-- `hop <tid> <call> <ret> <kind> <args…> <result…>` -/
+def parseHOp (toks : List String) : Option Lin.HOp :=
+  match toks with
+  | tid :: c :: r :: rest => do
+    let tid ← tid.toNat?; let c ← c.toNat?; let r ← r.toNat?
+    let mk (op : Lin.HCall) (res : Lin.HRet) : Option Lin.HOp := some ⟨tid, c, r, op, res⟩
+    match rest with
+    | ["w", res, vsn, "ok"] => do mk (.write (← parseRes res) (← decS vsn)) (.w .ok)
+    | ["w", res, vsn, "cas"] => do mk (.write (← parseRes res) (← decS vsn)) (.w .cas)
+    | ["w", res, vsn, "wronguid"] => do mk (.write (← parseRes res) (← decS vsn)) (.w .wrongUid)
+    | ["d", i, vsn, "ok"] => do mk (.delete (← parseID i) (← decS vsn)) (.d true)
+    | ["d", i, vsn, "cas"] => do mk (.delete (← parseID i) (← decS vsn)) (.d false)
+    | ["r", i, "notfound"] => do mk (.read (← parseID i)) (.r .notFound)
+    | ["r", i, "found", res] => do mk (.read (← parseID i)) (.r (.found (← parseRes res)))
+    | ["r", i, "gvmismatch", res] => do mk (.read (← parseID i)) (.r (.gvMismatch (← parseRes res)))
+    | ["l", q, rows] => do mk (.list (← parseQuery q)) (.l (← parseRows rows))
+    | ["lo", i, rows] => do mk (.listOwner (← parseID i)) (.l (← parseRows rows))
+    | ["restore", rows] => do mk (.restore (← parseRows rows)) .unit
+    | _ => none
+  | _ => none
+
+/-- `hwatch <openCall> <openRet> <complete 0/1> <query> <events>` with events `u:<res>` / `x:<res>` / `e` / `c` -/
+def parseWatchEv (tok : String) : Option Lin.SEv :=
+  if tok == "e" then some .eos
+  else if tok == "c" then some .closed
+  else if tok.startsWith "u:" then (parseRes (tok.drop 2).toString).map .upsert
+  else if tok.startsWith "x:" then (parseRes (tok.drop 2).toString).map .delete
+  else none
+
+def stepHist (s : St) (toks : List String) : Option (St × String) :=
+  match toks with
+  | ["hbegin"] => some ({ s with hist := {} }, "ok")
+  | "hop" :: rest => do
+      let o ← parseHOp rest
+      some ({ s with hist := { s.hist with ops := o :: s.hist.ops } }, "ok")
+  | ["hhint", evs] => do
+      let evs ← (decList evs).mapM parseWatchEv
+      some ({ s with hist := { s.hist with hint := evs } }, "ok")
+  | ["hwatch", c, r, complete, q, evs] => do
+      let c ← c.toNat?; let r ← r.toNat?; let complete ← decBool complete
+      let q ← parseQuery q
+      let evs ← (decList evs).mapM parseWatchEv
+      some ({ s with hist := { s.hist with watches := ⟨c, r, complete, q, evs⟩ :: s.hist.watches } }, "ok")
+  | ["hcheck"] =>
+      let h : Lin.Hist := { s.hist with ops := s.hist.ops.reverse, watches := s.hist.watches.reverse }
+      some ({ s with hist := {} }, Lin.verdict h)
+  | _ => none
+
+def step (s : St) (toks : List String) : St × String :=
+  match stepWorld s toks with
+  | some r => r
+  | none =>
+    match stepHist s toks with
+    | some r => r
+    | none => bad s
+
+def engine : Engine := { State := St, init := { w := World.init, hist := {} }, step := step }
+
 end CV.Engine.C18
